@@ -176,3 +176,27 @@ Theorem C19_code_wrappers_are_the_model : forall (V : Type) s f args kw,
   gen_allow_args V s f args kw = allow_args s f args kw.
 Proof. intros. split; [apply gen_allow_only_kwargs_is_model|apply gen_allow_args_is_model]. Qed.
 Print Assumptions C19_code_wrappers_are_the_model.
+
+(* ---- the product map for functions with an output of any element type ----------------------- *)
+From LCM Require Import Model.DispatchersG Proofs.C19_DispatchG.
+(* Model/DispatchersG.v generalises the element type of the OUTPUT array (values with -inf, booleans: *)
+(* what compute_ccv and utility_and_feasibility return); at element type Q it is the model above,      *)
+(* by computation; the entry and shape theorems hold for every output type                            *)
+Theorem C19_generic_productmap_is_the_model : forall f ps, base_productmapG (A:=Q) f ps = base_productmap f ps.
+Proof. exact base_productmapG_is_base_productmap. Qed.
+Print Assumptions C19_generic_productmap_is_the_model.
+
+Theorem C19_productmap_entry_for_any_output_type : forall (A : Type) (dA : A) (f : list qarr -> arr A) (osh : list nat),
+  (forall a, wf (f a) /\ shape (f a) = osh) ->
+  forall ps args idx r, NoDup ps ->
+  in_bounds (dims ps args) idx -> in_bounds osh r ->
+  get dA (base_productmapG f ps args) (idx ++ r) = get dA (f (slice_all args ps idx)) r /\
+  wf (base_productmapG f ps args) /\ shape (base_productmapG f ps args) = (dims ps args ++ osh)%list.
+Proof.
+  intros A dA f osh Hf ps args idx r Hnd Hi Hr. split.
+  - exact (bpmG_get dA f osh (fun _ => True) (fun _ => True) (fun _ _ _ _ _ => I) (fun a _ => Hf a)
+                    ps args idx r I Hnd (proj2 (Forall_forall _ _) (fun _ _ => I)) Hi Hr).
+  - exact (bpmG_wf_shape f osh (fun _ => True) (fun _ => True) (fun _ _ _ _ _ => I) (fun a _ => Hf a)
+                         ps args I Hnd (proj2 (Forall_forall _ _) (fun _ _ => I))).
+Qed.
+Print Assumptions C19_productmap_entry_for_any_output_type.
